@@ -29,7 +29,8 @@ ROOT_ELEMENT = ('<xs:schema xmlns:xs="http://www.w3.org/2001/XMLSchema" xmlns="h
                 '    <xs:element name="carton" type="carton_t" />\n</xs:schema>')
 # descriptions of the invariants that the schemas are meant to enforce (lengths and patterns of properties)
 ENFORCED = {"Name at least 2 characters", "Name at most 6 characters", "Name must be a code",
-            "Note at least 3 characters if given", "At least one item", "At most three items"}
+            "Note at least 3 characters if given", "At least one item", "At most three items", "At least two nested",
+            "At most ten nested"}
 
 
 def bounded(seed: int = 0, **_: Any) -> Dict[str, Any]:
@@ -44,7 +45,21 @@ def bounded(seed: int = 0, **_: Any) -> Dict[str, Any]:
         (root / "snippets" / "schema_base.json").write_text(SCHEMA_BASE, encoding="utf-8")
         (root / "snippets" / "root_element.xml").write_text(ROOT_ELEMENT, encoding="utf-8")
         model = root / "meta_model.py"
-        model.write_text(c09.MODEL, encoding="utf-8")
+        # a list bound with more digits than its lower bound (2..10): cardinalities are numbers, not texts
+        text = c09.MODEL.replace(
+            '@invariant(lambda self: len(self.items) >= 1, "At least one item")',
+            '@invariant(lambda self: not (self.nested is not None) or len(self.nested) >= 2, "At least two nested")\n'
+            '@invariant(lambda self: not (self.nested is not None) or len(self.nested) <= 10, "At most ten nested")\n'
+            '@invariant(lambda self: len(self.items) >= 1, "At least one item")')
+        assert text != c09.MODEL
+        # a length constraint behind a guard on *another* property cannot be put into a schema
+        text2 = text.replace(
+            '@invariant(lambda self: len(self.name) >= 2, "Name at least 2 characters")',
+            '@invariant(lambda self: not (self.weight is not None) or len(self.name) >= 3, "Weighed items have longer names")\n'
+            '@invariant(lambda self: not (self.weight is not None) or matches_code(self.name), "Weighed items have codes")\n'
+            '@invariant(lambda self: len(self.name) >= 2, "Name at least 2 characters")')
+        assert text2 != text
+        model.write_text(text2, encoding="utf-8")
         for target in (cg_main.Target.PYTHON, cg_main.Target.JSONSCHEMA, cg_main.Target.XSD):
             out = root / target.value
             out.mkdir()
@@ -99,6 +114,10 @@ def bounded(seed: int = 0, **_: Any) -> Dict[str, Any]:
                 f = formula(a)
                 if not list(V.verify(f)) and a[0] >= 0:
                     cartons.append((f"valid formula {k}", T.Carton(items=[good_item], formula=f)))
+            # nested lists of every size 0..11 (bounds 2..10), the nested cartons themselves valid
+            for size in range(0, 12):
+                cartons.append((f"{size} nested cartons", T.Carton(items=[good_item], nested=[
+                    T.Carton(items=[item(("Ab", None, None, None))]) for _ in range(size)])))
             for label, inst in cartons:
                 causes = {str(e.cause) for e in V.verify(inst)}
                 if not causes:
